@@ -134,6 +134,10 @@ Definition select (req : list Z) : option (list Z) :=
   end.
 End Select.
 
+(* a deterministic stand-in for np.random.choice (the first m members): shows that the oracle
+   hypothesis of the theorems is satisfiable, and is used by Corr.v where it is never called *)
+Definition choose0 (_ : nat) (ids : list Z) (m : Z) : list Z := firstn (Z.to_nat m) ids.
+
 (* the whole call on a selector built from a chunk grid *)
 Definition selector_call (choose : nat -> list Z -> Z -> list Z)
     (times clusters grid : list Z) (k : Z) (n : option Z) (req : list Z)
